@@ -1,5 +1,6 @@
 """C04 — adjacent output elements merge exactly as the freshness rules say."""
 import common
+import apicheck as A
 import copy
 import random
 
@@ -111,6 +112,16 @@ def run(out, tier, seed, model_ok):
                 D.run_real(D.build_docx(parts), opts, want_doc=False)
             except Exception:
                 pass
+    # the same pipeline end to end: the HTML the library returns must be the one the model computes with
+    # write (collapse (strip_empty nodes)) — the order of the two passes and what is merged across emptied elements
+    pipe_cases = []
+    for i in range(napi):
+        g, parts, opts = cases.api_case(seed * 1000003 + 500000 + i, dict(separators=True, style_map=0.9, p_table=0.05, p_image=0.0, p_empty=0.35, max_inlines=6),
+                                        sm=dict(hostile=0.05, junk=0.0))
+        opts.pop("format", None)
+        pipe_cases.append({"parts": parts, "options": opts, "features": sorted(g.used_features), "key": "c04p-%d-%d" % (seed, i)})
+    pipe = A.ApiRun(out, "C04", model_ok, lambda r, case: r.get("value"), name="pipeline")
+    pipe.run(pipe_cases, nontrivial=lambda c, r: "styleMap" in c["options"])
     api_forests = 0
     for kind, before, after, res in log:
         if kind == "collapse":
@@ -142,6 +153,9 @@ def run(out, tier, seed, model_ok):
 
 
 def replay(out, payload, model_ok):
+    if payload["case"].get("kind") == "api":
+        A.replay_case(out, "C04", model_ok, payload, lambda r, case: r.get("value"))
+        return
     f = payload["case"]["forest"]
     m = run_driver([{"op": "html", "nodes": f}])[0] if model_ok else None
     check_forest(out, f, m, "replay")
